@@ -126,6 +126,13 @@ func runVario(sc M) {
 	var lastPre M
 	for si, st0 := range list(sc, "steps") {
 		step := st0.(M)
+		if nd := str(step, "dir"); nd != "" {
+			// the efivars directory is configuration: from this step on the same objects work on another directory
+			dir = nd
+			attributes.Efivars = dir
+			r.inner.MkdirAll(dir, 0755)
+			lastPre = nil // nothing has been left in the new directory by an earlier step
+		}
 		v := step["var"].(M)
 		name, gid := str(v, "name"), str(v, "guid")
 		want := attrMask(list(v, "attrs"))
